@@ -8,7 +8,7 @@
   triple into a memo (`mu` drops by one, `local` is reset below `W`); every other recursive call descends into
   sub-selections (`local` drops). Memos only grow, so later siblings start with a smaller or equal `mu`.
 -/
-import PyGqlModel.Validate.OverlapMemo
+import PyGqlModel.Validate.ChainMemo
 import PyGqlModel.Validate.WfIds
 import PyGqlModel.Lemmas.ValidateOverlapFuel
 namespace PyGql.Validate
@@ -44,19 +44,9 @@ theorem countP_drop {α} (p q : α → Bool) (h : ∀ x, p x = true → q x = tr
       | false => simp only [Bool.false_eq_true, ↓reduceIte]; omega
       | true => rw [h x hpx]; simp only [↓reduceIte]; omega
 
-/-- all (selection set, fragment, flag) triples of the document -/
-def keysFF (d : Doc) : List (Nat × String × Bool) :=
-  (selSetIds d).flatMap fun i => ((fragTable d).map (·.1)).flatMap fun g => [(i, g, true), (i, g, false)]
-/-- all (fragment, fragment, flag) triples of the document -/
-def keysFR (d : Doc) : List (String × String × Bool) :=
-  ((fragTable d).map (·.1)).flatMap fun a => ((fragTable d).map (·.1)).flatMap fun b => [(a, b, true), (a, b, false)]
-
 /-- triples not yet compared -/
 def mu (d : Doc) (c : OCtx) : Nat :=
   (keysFF d).countP (fun k => decide (k ∉ c.ffp)) + (keysFR d).countP (fun k => decide (k ∉ c.pairs))
-
-/-- bound on the recursion depth of the memoised search -/
-def fuelBound (d : Doc) (R : Nat) : Nat := ((keysFF d).length + (keysFR d).length) * (2 * R + 7) + 2 * R + 7
 
 theorem mem_keysFF {d : Doc} {i : Nat} {sels : List Sel} {g : String} {v : String × Nat × List Sel} (b : Bool)
     (hi : SelSet d i sels) (hg : AL.get? (fragTable d) g = some v) : (i, g, b) ∈ keysFF d := by
